@@ -307,8 +307,25 @@ def c06_typed_grid(impl, rng, stats):
                     impl.do('lookup_val %s / %s' % (k, H(path)))
                 stats['c06:typed:%s' % k] = stats.get('c06:typed:%s' % k, 0) + 1
 
+def c06_names_in_aggregates(impl, rng, stats):
+    """names passed when adding to lists and arrays are ignored (documented), so every element stays reachable by its
+    index path; then every setting is looked up from every ancestor by every spelling (lookup_all)"""
+    for ov in (0, 1):
+        impl.do('init'); impl.do('set_option 128 %d' % ov)
+        impl.do('add / %s 8' % hexs(b'servers')); impl.do('add / %s 7' % hexs(b'ports')); impl.do('add / %s 1' % hexs(b'g'))
+        impl.do('add /0 %s 1' % hexs(b'primary')); impl.do('add /0 %s 1' % hexs(b'primary')); impl.do('add /0 %s 2' % hexs(b'n'))
+        impl.do('add /0/0 %s 2' % hexs(b'port')); impl.do('add /0 %s 8' % hexs(b'inner')); impl.do('add /0/3 %s 5' % hexs(b'deep'))
+        impl.do('add /1 %s 2' % hexs(b'first')); impl.do('add /1 %s 2' % hexs(b'first')); impl.do('add /1 - 2')
+        impl.do('add /2 %s 8' % hexs(b'l')); impl.do('add /2/0 %s 6' % hexs(b'b'))
+        for path in (b'servers.primary', b'servers.[0]', b'servers.[0].port', b'servers.primary.port', b'servers.[3].[0]', b'servers.inner.deep',
+                     b'ports.first', b'ports.[1]', b'g.l.b', b'g.l.[0]', b'servers.[2]', b'servers.n'):
+            impl.do('lookup / %s' % hexs(path))
+        impl.do('lookup_all'); impl.do('dump'); impl.do('wf')
+        stats['c06:names-in-aggregates'] = stats.get('c06:names-in-aggregates', 0) + 1
+
 def run_C06(ctx):
     s, n = sizes(ctx, (6, 200), (300, 1000))
+    correspondence(ctx, [c06_names_in_aggregates], proj_full, oracle_lookup, 'C06 path lookup', 'names-in-aggregates')
     correspondence(ctx, [c06_typed_grid], proj_lookup, oracle_lookup, 'C06 path lookup', 'typed-grid')
     api_correspondence(ctx, ['lookup'], s, n, proj_lookup, oracle_lookup, 'C06 path lookup')
     # the C++ half of the property: Setting::getPath() of every kind of setting (members, list and ARRAY elements, nested)
@@ -460,6 +477,15 @@ def c19_value_pool(ctx):
             i += 1
         impl.do('add /0 %s 1' % hexs(b'deep')); impl.do('add /0/%d %s 1' % (i, hexs(b'er'))); impl.do('add /0/%d/0 %s 8' % (i, hexs(b'l')))
         impl.do('add /0/%d/0/0 - 1' % i); impl.do('add /0/%d/0/0/0 %s 5' % (i, hexs(b's')))
+        # nesting far beyond what any fixed-size padding buffer holds: 40 levels (depth x width up to 600 columns),
+        # groups in groups and groups in lists alternating, a member at every level
+        path = '/0/%d' % (i + 1); impl.do('add /0 %s 1' % hexs(b'chain'))
+        for lvl in range(40):
+            impl.do('add %s %s 2' % (path, hexs(b'm%d' % lvl)))
+            if lvl % 3 == 2:
+                impl.do('add %s %s 8' % (path, hexs(b'l%d' % lvl))); impl.do('add %s/1 - 1' % path); path = path + '/1/0'
+            else:
+                impl.do('add %s %s 1' % (path, hexs(b'g%d' % lvl))); path = path + '/1'
         words = range(64) if ctx['tier'] == 'thorough' else [0x20 | rng.below(64), rng.below(64) & ~0x20, rng.below(64)]
         for o in words:
             impl.do('set_options %d' % o)
@@ -578,11 +604,17 @@ def run_C09(ctx):
              'read_file ' + H(b'mt.cfg'), '2 %s %s 2' % (b'syntax error'.hex(), b'p3.cfg'.hex()))
     # the caller's stream fails after delivering a complete valid text: I/O error record
     iofail = ('failing-stream', [], 'read_stream_fail 0 ' + H(b'a = 1;\nb = 2;\n'), '1 %s - 0' % b'file I/O error'.hex())
-    ev2 = events + [deep, multi, iofail]
-    d = len(events); m = d + 1; io = d + 2
+    # the stream fails in the middle of a setting: the text delivered so far cannot be a complete configuration, the
+    # scanner has asked for more, so the record is the I/O error - not the syntax error of the truncated text
+    iomid = ('failing-stream-mid-setting', [], 'read_stream_fail 0 ' + H(b'a = 1;\nb = [ 1, 2,'), '1 %s - 0' % b'file I/O error'.hex())
+    # an error located after a token that spans several lines (a string literal with raw newlines): every newline counts
+    multiline = ('syntax-after-3-line-string-l5', [], 'read_string ' + H(b's = "one\ntwo\nthree";\nt = 1;\nu = ;\n'), '2 %s - 5' % b'syntax error'.hex())
+    ev2 = events + [deep, multi, iofail, iomid, multiline]
+    d = len(events); m = d + 1; io = d + 2; im = d + 3; ml = d + 4
     # alone, after a syntax error, before a syntax error, before a missing file; the multi-include error and the failing
     # stream alone, after and before other failures
-    seqs2 = [(d,), (1, d), (d, 1), (d, 9), (m,), (1, m), (m, 2), (io,), (1, io), (io, 1), (3, io, 0), (io, m)]
+    seqs2 = [(d,), (1, d), (d, 1), (d, 9), (m,), (1, m), (m, 2), (io,), (1, io), (io, 1), (3, io, 0), (io, m),
+             (im,), (1, im), (im, 3), (0, im), (ml,), (3, ml), (ml, 1)]
     e = {}
     correspondence(ctx, [streams.sess_c09(seqs2, ev2, e)], proj_err, streams.oracle_c09(e), 'C09 error information', 'stack-exhaustion')
 
@@ -922,8 +954,40 @@ def run_C10_all(ctx):
         return None
     correspondence(ctx, [reinstate], proj_full, oracle_reinstate, 'C10 default include function', 'reinstate')
 
-REGISTRY['C10'] = dict(modules=['LibconfigModel.Properties.C10', 'LibconfigModel.Properties.C10Splice', 'LibconfigModel.Properties.C10SpliceTotal', 'LibconfigModel.Properties.Skeleton'], run=run_C10_all, assumptions=COMMON_ASSUMPTIONS)
-REGISTRY['C11'] = dict(modules=['LibconfigModel.Properties.C11', 'LibconfigModel.Properties.Skeleton'], run=props_c1011.run_C11, assumptions=COMMON_ASSUMPTIONS)
+REGISTRY['C10'] = dict(modules=['LibconfigModel.Properties.C10', 'LibconfigModel.Properties.C10Splice', 'LibconfigModel.Properties.C10SpliceTotal', 'LibconfigModel.Properties.Skeleton', 'LibconfigModel.Properties.C10Prov'], run=run_C10_all, assumptions=COMMON_ASSUMPTIONS)
+def run_C11_all(ctx):
+    props_c1011.run_C11(ctx)
+    # two faults in one read: an included file whose read fails (treated as its end) and, later, a parse error while still
+    # inside an included file - the include stack must be unwound (buffers deleted, streams closed) AND the record must be
+    # the I/O error; also the plain cases: read error in the top file of a chain, in the last file, with/without later text
+    BAD = b'/proc/self/mem'
+    def fn(impl, rng, stats):
+        if impl.do('probe_badfile ' + hexs(BAD)) != '1':
+            stats['c11:no-unreadable-file-on-this-system'] = 1
+            return
+        texts = [b'a = 1;\n@include "mid.cfg"\nb = 2;\n', b'@include "mid.cfg"\n', b'g = {\n@include "mid.cfg"\n};\n']
+        mids = [b'm = 1;\n@include "/proc/self/mem"\nx = ;\n', b'@include "/proc/self/mem"\nm = (1, 2\n', b'm = 1;\n@include "/proc/self/mem"\nn = 2;\n',
+                b'@include "deep.cfg"\nq = = ;\n']
+        for mid in mids:
+            for t in texts:
+                impl.do('init'); impl.do('mkfile %s %s' % (hexs(b'mid.cfg'), hexs(mid)))
+                impl.do('mkfile %s %s' % (hexs(b'deep.cfg'), hexs(b'd = 1;\n@include "/proc/self/mem"\ne = [1,\n')))
+                impl.do('fdmark'); impl.do('read_string_ioerr %s %s' % (hexs(BAD), hexs(t))); impl.do('err'); impl.do('fdcount'); impl.do('leakcheck'); impl.do('dump')
+                stats['c11:io-error-inside-include'] = stats.get('c11:io-error-inside-include', 0) + 1
+    def oracle(ops, outs):
+        for i, o in enumerate(ops):
+            w = first_word(o)
+            if w == 'fdcount' and outs[i] != '0':
+                return i, 'a read with an I/O error inside an included file returned with %s more open descriptor(s)' % outs[i]
+            if w == 'leakcheck' and outs[i] != '0':
+                return i, 'a read with an I/O error inside an included file leaked memory (LeakSanitizer)'
+            if w == 'err' and i > 0 and first_word(ops[i - 1]) == 'read_string_ioerr' and outs[i] != '1 %s - 0' % b'file I/O error'.hex():
+                return i, 'a read during which an included file could not be read left the record %r' % outs[i]
+        return None
+    correspondence(ctx, [fn], lambda op, out: None if first_word(op) in ('probe_badfile', 'fdmark') else out, oracle,
+                   'C11 release of files and buffers', 'io-error-inside-include')
+
+REGISTRY['C11'] = dict(modules=['LibconfigModel.Properties.C11', 'LibconfigModel.Properties.Skeleton'], run=run_C11_all, assumptions=COMMON_ASSUMPTIONS)
 
 import props_c17
 REGISTRY['C17'] = dict(modules=['LibconfigModel.Properties.C17'], run=props_c17.run_C17, assumptions=COMMON_ASSUMPTIONS)
